@@ -720,6 +720,16 @@ func c11OnLine(c *fw.Ctx, idx int) {
 		var g2 bool
 		a := geom.Coord(flat[(j-1)*stride : (j-1)*stride+2])
 		b := geom.Coord(flat[j*stride : j*stride+2])
+		if r.Chance(1, 3) {
+			// another question first: does a segment starting at the query point meet
+			// this segment of the line
+			func() {
+				defer func() { _ = recover() }()
+				q := geom.Coord{pc[0] + float64(r.Range(-9, 9)), pc[1] + float64(r.Range(-9, 9))}
+				_ = lineintersector.LineIntersectsLine(lineintersector.RobustLineIntersector{}, pc, q, a, b)
+			}()
+			c.Count("line_intersection_with_the_same_point_and_segment_asked_first")
+		}
 		if c.Guard("panic", func() { g2 = lineintersector.PointIntersectsLine(lineintersector.RobustLineIntersector{}, pc, a, b) }) {
 			return
 		}
@@ -770,6 +780,94 @@ func c11OnLine(c *fw.Ctx, idx int) {
 	}
 }
 
+// c11LongLines: IsOnLine against tracks of 257..1100 vertices (going east, north
+// or along a diagonal band, integer ordinates), query points inside and next to
+// every kind of segment - with a bias to segments number 255, 256, 257, 511, 512,
+// ...: a scan made in blocks has to get the segment that joins two blocks right.
+func c11LongLines(c *fw.Ctx, idx int) {
+	r := c.R
+	n := r.Range(257, 1100)
+	stride := r.Range(2, 4)
+	layout := []geom.Layout{geom.XY, geom.XYZ, geom.XYZM}[stride-2]
+	dir := r.Intn(3)
+	pts := make([]ipt, n)
+	var x, y int64 = int64(r.Range(-50, 50)), int64(r.Range(-50, 50))
+	for i := range pts {
+		pts[i] = ipt{x, y}
+		step, wob := int64(2*r.Range(1, 3)), int64(2*r.Range(-2, 2))
+		switch dir {
+		case 0:
+			x, y = x+step, y+wob-y%2
+		case 1:
+			y, x = y+step, x+wob-x%2
+		default:
+			x, y = x+step, y+step+wob
+		}
+	}
+	flat := make([]float64, 0, n*stride)
+	for _, p := range pts {
+		flat = append(flat, float64(p.x), float64(p.y))
+		for k := 2; k < stride; k++ {
+			flat = append(flat, gen.Float(r, gen.AnyClass(r)))
+		}
+	}
+	before := append([]float64{}, flat...)
+	for q := 0; q < 24; q++ {
+		j := r.Range(1, n-1)
+		if q < 16 {
+			// segments at and next to multiples of 256, 128, 64
+			blk := []int{256, 256, 128, 64}[r.Intn(4)]
+			j = blk*r.Range(1, (n-1)/blk) + r.Range(-1, 1)
+			if j < 1 {
+				j = 1
+			}
+			if j > n-1 {
+				j = n - 1
+			}
+		}
+		a, b := pts[j-1], pts[j]
+		p := ipt{(a.x + b.x) / 2, (a.y + b.y) / 2}
+		switch r.Intn(5) {
+		case 0:
+			p = a
+		case 1:
+			p.y++
+		case 2:
+			p.x--
+		}
+		want := false
+		for k := 1; k < n; k++ {
+			if ionseg(p, pts[k-1], pts[k]) {
+				want = true
+				break
+			}
+		}
+		pc := geom.Coord{float64(p.x), float64(p.y), math.NaN(), 1}[:stride]
+		c.SetInput(map[string]any{"point": fw.Fs(pc[:2]), "vertices": n, "segment": j, "segment_ends": fmt.Sprintf("(%d %d)-(%d %d)", a.x, a.y, b.x, b.y), "stride": stride, "line": "regenerated from the seed and case index"})
+		var got bool
+		if c.Guard("panic", func() { got = xy.IsOnLine(layout, pc, flat) }) {
+			return
+		}
+		c.Eval(1)
+		if want {
+			c.Count("longline_true")
+		} else {
+			c.Count("longline_false")
+		}
+		if got != want {
+			c.Fail("wrong-online", "IsOnLine(point near segment %d of a line of %d vertices) = %v, exact on-segment test over all segments says %v", j, n, got, want)
+			return
+		}
+	}
+	for i := range before {
+		if math.Float64bits(before[i]) != math.Float64bits(flat[i]) {
+			c.Fail("argument-modified", "IsOnLine changed ordinate %d of the line", i)
+			return
+		}
+	}
+	c.Distinct(fmt.Sprintf("longline/%d/%d/%d", n, dir, stride))
+}
+
 func init() {
 	fw.Register(&fw.Monitor{
 		ID:    "C11",
@@ -784,6 +882,7 @@ func init() {
 			{Name: "on-line", Quick: 150000, Thorough: 12000000, Run: c11OnLine},
 			{Name: "hard-edges", Quick: 20000, Thorough: 2400000, Run: c11HardEdges},
 			{Name: "one-array-two-layouts", Quick: 20000, Thorough: 1600000, Run: c11TwoLayouts},
+			{Name: "long-lines", Quick: 3000, Thorough: 200000, Run: c11LongLines},
 			{Name: "huge-rings", Quick: 24, Thorough: 2400, Chunk: 2, Run: c11HugeRings},
 		},
 		Require: []string{"loc_interior", "loc_boundary", "loc_exterior", "on_vertex", "on_edge_interior", "ray_through_vertex", "horizontal_edge_on_ray", "variant_sets", "online_true", "online_false", "online_float_inputs"},
